@@ -165,7 +165,7 @@ def replay_emit(chk, T: Targets, ev):
             if got != ("ok", text):
                 bad(name, f"encode_int{n}", text, got, f"{e}:encode_int{n}")
             # out of range values are refused
-            for oob in (-1, 1 << n):
+            for oob in (-1, 1 << n, -2, -(1 << n), -(1 << n) + 1, -(1 << n) - 1, (1 << n) + 1, 1 << (n + 1), -(1 << (n - 1))):
                 got = outcome(getattr(eng, f"encode_int{n}"), oob)
                 chk.count()
                 if got[0] != "ValueError":
